@@ -1,9 +1,263 @@
 import Driver.Util
-/-! driver ops of C18 (prefix `c18.`); filled in by the C18 work -/
+import Model.Net
+/-! driver ops of C18 (prefix `c18.`): one scripted exchange per line, whole observable outcome on one line -/
 namespace Driver
-open Model
+open Model Model.Net
+
+namespace N18
+
+def stripPrefix (c : Char) (s : String) : Option String :=
+  match s.toList with
+  | x :: rest => if x = c then some (String.ofList rest) else none
+  | [] => none
+
+def parseAddr (s : String) : Option Addr :=
+  match s.splitOn "/" with
+  | h :: rest => do
+    let host ← ofHex h
+    let r ← rest.mapM (·.toNat?)
+    some ⟨host, r⟩
+  | [] => none
+
+def parseOptAddr (s : String) : Option (Option Addr) :=
+  if s = "none" then some none else (parseAddr s).map some
+
+def showAddr (a : Addr) : String := "/".intercalate (toHexP a.host :: a.rest.map toString)
+
+def parseOptNat (s : String) : Option (Option Nat) :=
+  if s = "none" then some none else s.toNat?.map some
+
+def parseQEntry (s : String) : Option QEntry :=
+  match s.splitOn "/" with
+  | [n, c, t] => do
+    let n ← parseName n
+    let c ← c.toNat?
+    let t ← t.toNat?
+    some ⟨n, c, t⟩
+  | _ => none
+
+def parseMsg (s : String) : Option Msg :=
+  match s.splitOn "." with
+  | [i, f, e, q] => do
+    let i ← i.toNat?
+    let f ← f.toNat?
+    let e ← e.toNat?
+    let q ← if q = "-" then some [] else (q.splitOn ";").mapM parseQEntry
+    some ⟨i, f, e, q⟩
+  | _ => none
+
+def parseOptMsg (s : String) : Option (Option Msg) :=
+  if s = "none" then some none else (parseMsg s).map some
+
+def parseWire (s : String) : Option Wire :=
+  match s.splitOn "~" with
+  | ["S"] => some .short
+  | ["B", m, fe] => do
+    let m ← parseMsg m
+    let fe ← parseBool fe
+    some (.broken m fe)
+  | ["F", m, tr] => do
+    let m ← parseMsg m
+    let tr ← parseBool tr
+    some (.full m tr)
+  | _ => none
+
+def parseUEv (s : String) : Option UEv :=
+  match s.splitOn "=" with
+  | ["D", a, w] => do
+    let a ← parseAddr a
+    let w ← parseWire w
+    some (.dgram a w)
+  | [t] => do
+    let d ← stripPrefix 'W' t
+    let d ← d.toNat?
+    some (.block d)
+  | _ => none
+
+def parseOpts (s : String) : Option UOpts :=
+  match s.toList.mapM (fun c => if c = '1' then some true else if c = '0' then some false else none) with
+  | some [a, b, c, d, e] => some ⟨a, b, c, d, e⟩
+  | _ => none
+
+def parseREv (s : String) : Option REv :=
+  if s = "E" then some .eof
+  else match stripPrefix 'D' s with
+    | some h => (ofHex h).map .data
+    | none => match stripPrefix 'W' s with
+      | some d => d.toNat?.map .block
+      | none => none
+
+def parseSEv (s : String) : Option SEv :=
+  match stripPrefix 'A' s with
+  | some k => k.toNat?.map .accept
+  | none => match stripPrefix 'W' s with
+    | some d => d.toNat?.map .block
+    | none => none
+
+def parseBlocks (s : String) : Option (List Nat) :=
+  if s = "-" then some [] else (s.splitOn ",").mapM (·.toNat?)
+
+/-- `P<hex>=<wire>` -/
+def parsePEntry (s : String) : Option (Bytes × Wire) :=
+  match stripPrefix 'P' s with
+  | some r =>
+    match r.splitOn "=" with
+    | [h, w] => do
+      let h ← ofHex h
+      let w ← parseWire w
+      some (h, w)
+    | _ => none
+  | none => none
+
+def lookupParse (tbl : List (Bytes × Wire)) (frame : Bytes) : Wire :=
+  match tbl.find? (fun p => p.1 == frame) with
+  | some p => p.2
+  | none => .short
+
+def showExceptB (r : Except Err Bool) : String :=
+  match r with
+  | .ok b => "ok " ++ (if b then "1" else "0")
+  | .error e => "err " ++ e.toString
+
+def showURet (r : Except Fail URet) : String :=
+  match r with
+  | .ok r => s!"ok idx={r.idx} id={r.msg.id} flags={r.msg.flags} src={showAddr r.src} t={r.recvTime}"
+  | .error f => s!"err {f.err.toString} idx={f.idx}"
+
+def streamRest (evs : List REv) : String := toHexP (stream evs)
+
+/-- split a token list at the first "/" token -/
+def splitSlash : List String → List String × List String
+  | [] => ([], [])
+  | t :: rest => if t = "/" then ([], rest) else let (a, b) := splitSlash rest; (t :: a, b)
+
+end N18
+open N18
 
 def handleC18 : List String → Option String
+  | ["c18.pton", af, h] => do
+    let af ← af.toNat?
+    let h ← ofHex h
+    some (match inetPton af h with
+      | .ok b => "ok " ++ toHexP b
+      | .syntax => "err Syntax"
+      | .notImplemented => "err NotImplemented")
+  | ["c18.addreq", af, a, b] => do
+    let af ← af.toNat?
+    let a ← parseAddr a
+    let b ← parseAddr b
+    some (showExceptB (addressesEqual af a b))
+  | ["c18.mcast", h] => do
+    let h ← ofHex h
+    some (showExceptB (isMulticast h))
+  | ["c18.match", af, src, dest, iu] => do
+    let af ← af.toNat?
+    let src ← parseAddr src
+    let dest ← parseOptAddr dest
+    let iu ← parseBool iu
+    some (showExceptB (matchesDestination af src dest iu))
+  | ["c18.isresp", q, r] => do
+    let q ← parseMsg q
+    let r ← parseMsg r
+    some ("ok " ++ (if isResponse q r then "1" else "0"))
+  | ["c18.fromwire", w, it, rt, coe] => do
+    let w ← parseWire w
+    let it ← parseBool it
+    let rt ← parseBool rt
+    let coe ← parseBool coe
+    some (match fromWire w it rt coe with
+      | .ok m => s!"ok id={m.id} flags={m.flags} nq={m.question.length}"
+      | .error .formError => "err FormError"
+      | .error .other => "err OtherParse"
+      | .error (.truncated m) => s!"err Truncated id={m.id} flags={m.flags} nq={m.question.length}")
+  | "c18.recvudp" :: coe :: af :: dest :: timeout :: opts :: query :: now :: evs => do
+    let coe ← parseBool coe
+    let af ← af.toNat?
+    let dest ← parseOptAddr dest
+    let timeout ← parseOptNat timeout
+    let o ← parseOpts opts
+    let query ← parseOptMsg query
+    let now ← now.toNat?
+    let evs ← evs.mapM parseUEv
+    some (showURet (receiveUdp coe af dest (expiration timeout now) o query evs now 0))
+  | "c18.udp" :: coe :: q :: af :: dest :: timeout :: opts :: blocks :: now :: evs => do
+    let coe ← parseBool coe
+    let q ← parseMsg q
+    let af ← af.toNat?
+    let dest ← parseAddr dest
+    let timeout ← parseOptNat timeout
+    let o ← parseOpts opts
+    let blocks ← parseBlocks blocks
+    let now ← now.toNat?
+    let evs ← evs.mapM parseUEv
+    some (showURet (udp coe q af dest timeout o blocks evs now))
+  | "c18.netread" :: count :: timeout :: now :: evs => do
+    let count ← count.toNat?
+    let timeout ← parseOptNat timeout
+    let now ← now.toNat?
+    let evs ← evs.mapM parseREv
+    some (match netRead evs count (expiration timeout now) now [] with
+      | .ok (b, rest, t) => s!"ok {toHexP b} rest={streamRest rest} t={t}"
+      | .error e => "err " ++ e.toString)
+  | "c18.netwrite" :: data :: timeout :: now :: sevs => do
+    let data ← ofHex data
+    let timeout ← parseOptNat timeout
+    let now ← now.toNat?
+    let sevs ← sevs.mapM parseSEv
+    some (match netWrite sevs data (expiration timeout now) now [] with
+      | (sent, .ok (_, t)) => s!"sent={toHexP sent} ok t={t}"
+      | (sent, .error e) => s!"sent={toHexP sent} err {e.toString}")
+  | "c18.sendtcp" :: data :: timeout :: now :: sevs => do
+    let data ← ofHex data
+    let timeout ← parseOptNat timeout
+    let now ← now.toNat?
+    let sevs ← sevs.mapM parseSEv
+    some (match sendTcp data sevs (expiration timeout now) now with
+      | (sent, .ok (_, t)) => s!"sent={toHexP sent} ok t={t}"
+      | (sent, .error e) => s!"sent={toHexP sent} err {e.toString}")
+  | "c18.recvtcp" :: timeout :: now :: it :: coe :: toks => do
+    let timeout ← parseOptNat timeout
+    let now ← now.toNat?
+    let it ← parseBool it
+    let coe ← parseBool coe
+    let (ptoks, etoks) := splitSlash toks
+    let tbl ← ptoks.mapM parsePEntry
+    let evs ← etoks.mapM parseREv
+    let exp := expiration timeout now
+    some (match receiveFrame evs exp now with
+      | .error e => "err " ++ e.toString
+      | .ok (frame, _, _) =>
+        if frame.length ≥ 12 && !(tbl.any (fun p => p.1 == frame)) then "noparse " ++ toHexP frame
+        else match receiveTcp (lookupParse tbl) it coe evs exp now with
+          | .ok r => s!"ok id={r.msg.id} flags={r.msg.flags} frame={toHexP r.frame} rest={streamRest r.rest} t={r.recvTime}"
+          | .error e => "err " ++ e.toString)
+  | "c18.tcp" :: q :: qwire :: timeout :: it :: now :: toks => do
+    let q ← parseMsg q
+    let qwire ← ofHex qwire
+    let timeout ← parseOptNat timeout
+    let it ← parseBool it
+    let now ← now.toNat?
+    let (ptoks, toks2) := splitSlash toks
+    let (stoks, rtoks) := splitSlash toks2
+    let tbl ← ptoks.mapM parsePEntry
+    let sevs ← stoks.mapM parseSEv
+    let revs ← rtoks.mapM parseREv
+    let exp := expiration timeout now
+    let unknown : Option Bytes :=
+      match sendTcp qwire sevs exp now with
+      | (_, .ok (_, now1)) =>
+        (match receiveFrame revs exp now1 with
+         | .ok (frame, _, _) => if frame.length ≥ 12 && !(tbl.any (fun p => p.1 == frame)) then some frame else none
+         | .error _ => none)
+      | _ => none
+    some (match tcp q qwire timeout it (lookupParse tbl) sevs revs now with
+      | (sent, r) =>
+        match unknown with
+        | some frame => s!"sent={toHexP sent} noparse {toHexP frame}"
+        | none =>
+          match r with
+          | .ok r => s!"sent={toHexP sent} ok id={r.msg.id} flags={r.msg.flags} frame={toHexP r.frame} t={r.recvTime}"
+          | .error e => s!"sent={toHexP sent} err {e.toString}")
   | _ => none
 
 end Driver
